@@ -36,11 +36,13 @@ class Interp(object):
         self.npaths = 0
         self.prim_classes = {}      # ClassInfo.qualname -> handler(interp, st, obj, meth, args, kwargs, line)
         self.opaque_funcs = set()   # qualnames never inlined
+        self.attr_hook = None       # fn(interp, st, base, attr) -> V | None
         self.call_hook = None       # fn(interp, st, fv, args, kwargs, line) -> results | None
         self.log_names = ('LOG', 'log', 'logging')
         self.while_unroll = WHILE_UNROLL
         self.merge_loops = False
         self.unpack_may_raise = False
+        self.opaque_funcs_may_raise = set()
         self.merge_call_prefixes = ()
         self.base_counter = 0
 
@@ -175,6 +177,10 @@ class Interp(object):
                 if v is not None:
                     return [('val', v, st)]
                 return [('val', Opaque('%s.%s' % (b.mod.name, attr)), st)]
+            if self.attr_hook is not None:
+                hv = self.attr_hook(self, st, b, attr)
+                if hv is not None:
+                    return [('val', hv, st)]
             return [('val', ModV(External(b.mod.dotted + '.' + attr)), st)]
         if isinstance(b, Const) and attr == 'packed':
             return [('val', Opaque(b.desc() + '.packed', 'bytes'), st)]
@@ -375,7 +381,13 @@ class Interp(object):
                 return r
         if isinstance(fv, FuncV):
             if fv.finfo.qualname in self.opaque_funcs:
-                return self.call_opaque(fv, args, kwargs, st, line, node)
+                res = self.call_opaque(fv, args, kwargs, st, line, node)
+                if fv.finfo.qualname in self.opaque_funcs_may_raise:
+                    s2 = st.fork()
+                    self._count()
+                    s2.flags.add('opaque-raise@%s' % fv.finfo.qualname)
+                    res = res + [('raise', Opaque('Exception(raised inside %s)' % fv.finfo.qualname), s2)]
+                return res
             return self.call_func(fv, args, kwargs, st, line)
         if isinstance(fv, ClassV):
             return self.instantiate(fv.cinfo, args, kwargs, st, line)
